@@ -466,7 +466,7 @@ RULES["R02.1"] += " | returned-as-computed: on the E6 value of every non-panicki
 
 def run(ctx):
     from .common import returned_as_computed
-    ctx.guard("R02.1", "returned-as-computed", returned_as_computed, ctx, "R02.1", {"src/dense.rs", "src/convolution.rs", "src/deconvolution.rs", "src/maxpool.rs"}, lambda p_, l_: l_ == "forward", ("hadamard", "add_inplace", "dropout"), 4)
+    ctx.guard("R02.1", "returned-as-computed", returned_as_computed, ctx, "R02.1", {"src/dense.rs", "src/convolution.rs", "src/deconvolution.rs", "src/maxpool.rs"}, lambda p_, l_: not p_.startswith("<") and l_ not in ("create", "parameters", "calculate_output_size") and not any(w_ in l_ for w_ in ("backward", "gradient", "rotate", "rearrange")), ("hadamard", "add_inplace", "dropout"), 5)
     from .common import no_permuting_ops
     ctx.guard("R02.1", "entries-stay-in-place", no_permuting_ops, ctx, "R02.1", "layers-forward", {"src/dense.rs", "src/convolution.rs", "src/deconvolution.rs", "src/maxpool.rs"}, 15, lambda p_, l_: "backward" in l_ or "gradient" in l_ or l_ == "rotate")
     ctx.guard("R02.4", "linear-algebra", dense_linear_algebra, ctx)
